@@ -262,6 +262,8 @@ func (ClawbackVestingAccount).GetVestingCoins
 func (ClawbackVestingAccount).GetLockedUpCoins
     requires valid: ValidCVA(va)
     ensures locked: result == csub(va.OriginalVesting, UnlockedAt(va, time_unix(blockTime))) && cnonneg(result)
+    ensures bounds: clte(result, va.OriginalVesting) && cnonneg(va.OriginalVesting)
+    use return EndedBounds(time_unix(va.StartTime), va.LockupPeriods, len(va.LockupPeriods), time_unix(blockTime))
 
 func (ClawbackVestingAccount).GetUnlockedVestedCoins
     requires valid: ValidCVA(va)
